@@ -1,9 +1,10 @@
 """C11 — assign obeys the lens laws and fails atomically."""
 from pyvc.verify import Post, Case, Equiv
+from contracts import extra
 from contracts import common, C12
 
 PROPERTY = 'C11'
-REF_MODULES = ['ref_mut', 'h_path', 'ref_extra', 'ref_core', 'ref_match', 'ref_reduce', 'ref_auto', 'ref_t']
+REF_MODULES = ['ref_mut', 'h_path', 'ref_extra', 'ref_core', 'ref_match', 'ref_reduce', 'ref_auto', 'ref_t', 'ref_registry']
 TS = C12.TS
 
 
@@ -35,7 +36,7 @@ def contracts():
                     args={'func': 'ref', 'path': 'inst:core.Path', 'val': 'ref'},
                     loops={1: dict(vars=[('val', 'ref')], ref_vars=[('val', 'ref')]),
                            2: dict(vars=[('func', 'ref')], ref_vars=[('func', 'ref')])}))
-    from contracts import extra
+    pass
     cs += common.shared(extra, ['mutation.Assign.__init__', 'mutation.assign', 'mutation._assign_autodiscover'])
     # the assigned value is arg_val(target, val, scope) evaluated with a fresh per-call valuator (shared with C08); how many wildcard
     # layers a destination has is TType.__stars__ (shared with C14 through contracts/extra.py)
@@ -47,6 +48,10 @@ def contracts():
     from contracts import C02
     cs += common.shared(C02, ['core._t_eval'])
     cs += common.shared(extra, ['core.Path.from_text'])
+    # how a destination Path is built from parts, and which handler the registry resolves (incl. after later registrations)
+    from contracts import C18, C13
+    cs += common.shared(C18, ['core.Path.__init__'])
+    cs += common.shared(C13, ['core.TargetRegistry.get_handler', 'core.TargetRegistry.get_type_map', 'core.TargetRegistry._get_closest_type', 'core.TargetRegistry.register'])
     return cs
 
 
